@@ -9,6 +9,7 @@
 // The harness never judges: it records facts; specs/base/PlannerContract.tla decides.
 #include "planlab.h"
 #include <ompl/base/PlannerData.h>
+#include <ompl/util/Exception.h>
 #include <chrono>
 #include <thread>
 #include <mutex>
@@ -216,7 +217,16 @@ static json runOne(const std::vector<Entry> &reg, const json &cs, const RunSpec 
     // in half of the runs so that both "interrupted while improving" and "ran to budget" occur
     b.stopOnExact = (rs.seed % 2) == 0;
     std::size_t nBefore = pd->getSolutionCount();
-    ob::PlannerStatus st = p->solve(b.ptc());
+    ob::PlannerStatus st;
+    std::string thrown;
+    try
+    {
+        st = p->solve(b.ptc());
+    }
+    catch (const ompl::Exception &ex)
+    {
+        thrown = ex.what();  // e.g. a planner rejecting a state space it does not support
+    }
     json ev;
     ev["e"] = "Solve";
     ev["planner"] = rs.planner;
@@ -234,7 +244,9 @@ static json runOne(const std::vector<Entry> &reg, const json &cs, const RunSpec 
     ev["res"] = fx(pr.resolutionLength);
     ev["resFrac"] = fx(rs.res);
     ev["pairs"] = (e->flags & F_PAIRS) != 0;
-    ev["status"] = statusName(st);
+    ev["status"] = thrown.empty() ? statusName(st) : "EXCEPTION";
+    if (!thrown.empty())
+        ev["what"] = thrown.substr(0, 160);
     ev["nBefore"] = (int)nBefore;
     ev["nAfter"] = (int)pd->getSolutionCount();
     ev["evals"] = (long)b.evals.load();
@@ -531,6 +543,139 @@ static void runLifecycle(const std::vector<Entry> &reg, const json &job, vt::Tra
     }
 }
 
+// ------------------------------------------------------------------ C04: cost truthfulness
+class ClearanceIntegral : public ob::StateCostIntegralObjective
+{
+public:
+    ClearanceIntegral(const ob::SpaceInformationPtr &si) : ob::StateCostIntegralObjective(si, true)
+    {
+    }
+    ob::Cost stateCost(const ob::State *s) const override
+    {
+        return ob::Cost(1.0 / (si_->getStateValidityChecker()->clearance(s) + 0.1));
+    }
+};
+class HillWork : public ob::MechanicalWorkOptimizationObjective
+{
+public:
+    HillWork(const ob::SpaceInformationPtr &si) : ob::MechanicalWorkOptimizationObjective(si)
+    {
+    }
+    ob::Cost stateCost(const ob::State *s) const override
+    {
+        const double *v = s->as<ob::RealVectorStateSpace::StateType>()->values;
+        return ob::Cost(v[0] + 0.5 * v[1]);
+    }
+};
+
+static ob::OptimizationObjectivePtr makeObjective(const std::string &name, const ob::SpaceInformationPtr &si, double straight,
+                                                  int &sense)
+{
+    sense = 1;
+    if (name == "length")
+        return std::make_shared<ob::PathLengthOptimizationObjective>(si);
+    if (name == "length-thr")
+    {
+        auto o = std::make_shared<ob::PathLengthOptimizationObjective>(si);
+        o->setCostThreshold(ob::Cost(1.25 * straight + 0.3));
+        return o;
+    }
+    if (name == "clearint")
+        return std::make_shared<ClearanceIntegral>(si);
+    if (name == "combo")
+    {
+        auto m = std::make_shared<ob::MultiOptimizationObjective>(si);
+        m->addObjective(std::make_shared<ob::PathLengthOptimizationObjective>(si), 1.0);
+        m->addObjective(std::make_shared<ClearanceIntegral>(si), 0.5);
+        m->lock();
+        return m;
+    }
+    if (name == "maxminclear")
+    {
+        sense = -1;
+        return std::make_shared<ob::MaximizeMinClearanceObjective>(si);
+    }
+    if (name == "mechwork")
+        return std::make_shared<HillWork>(si);
+    fprintf(stderr, "unknown objective %s\n", name.c_str());
+    exit(3);
+}
+
+// a sequence of continued solves on one query under one objective; one event per solve
+static void runCost(const std::vector<Entry> &reg, const json &job, vt::Trace &tr)
+{
+    const Entry *e = findPlanner(reg, job["planner"]);
+    World w(job["W"], job["H"], job["obst"].get<std::vector<int>>());
+    unsigned seed = job["seed"];
+    ompl::RNG::setSeed(seed);
+    Problem pr(w, "R2", 0.01);
+    vt::Rng jit(seed);
+    auto off = [&]() { return (jit.unit() - 0.5) * 0.6; };
+    double sdx = off(), sdy = off(), gdx = off(), gdy = off();
+    double thr = job.value("thr", 0.0);
+    auto pd = pr.makeQuery(job["start"], job["goal"], thr, sdx, sdy, gdx, gdy);
+    const ob::State *startState = pd->getStartState(0);
+    const ob::State *goalState = pr.goal->getState();
+    double straight = pr.space->distance(startState, goalState);
+    int sense = 1;
+    std::string oname = job["objective"];
+    ob::OptimizationObjectivePtr obj = makeObjective(oname, pr.si, straight, sense);
+    pd->setOptimizationObjective(obj);
+    ob::PlannerPtr p = e->make(pr.si);
+    p->setProblemDefinition(pd);
+    tr.emit(json{{"e", "Reset"}, {"planner", e->name}, {"objective", oname}, {"sense", sense}, {"job", job.value("id", 0)},
+                 {"W", w.W}, {"H", w.H}, {"obst", job["obst"]}, {"start", job["start"]}, {"goal", job["goal"]},
+                 {"seed", seed}, {"exactCost", job.value("exactCost", false)}});
+    // admissible lower bound for the query
+    double lb;
+    if (oname == "length" || oname == "length-thr")
+        lb = std::max(0.0, straight - pr.threshold);
+    else
+        lb = obj->motionCostHeuristic(startState, goalState).value();
+    for (auto &kk : job["budgets"])
+    {
+        Budget b;
+        b.k = kk.get<long>();
+        b.pdef = pd.get();
+        std::set<const ob::Path *> before;
+        for (auto &s : pd->getSolutions())
+            before.insert(s.path_.get());
+        ob::PlannerStatus st;
+        std::string thrown;
+        try
+        {
+            st = p->solve(b.ptc());
+        }
+        catch (const ompl::Exception &ex)
+        {
+            thrown = ex.what();
+        }
+        json ev{{"e", "CostSolve"}, {"planner", e->name}, {"objective", oname}, {"k", b.k}, {"evals", (long)b.evals.load()},
+                {"status", thrown.empty() ? statusName(st) : "EXCEPTION"}, {"lb", fx(lb)}, {"sense", sense}};
+        json sols = json::array();
+        for (auto &s : pd->getSolutions())
+        {
+            json f;
+            auto *pg = dynamic_cast<og::PathGeometric *>(s.path_.get());
+            f["approx"] = s.approximate_;
+            f["added"] = before.count(s.path_.get()) == 0;
+            f["hasObj"] = (bool)s.opt_;
+            f["sameObj"] = s.opt_.get() == obj.get();
+            f["optimized"] = s.optimized_;
+            f["stored"] = fx(s.cost_.value());
+            double truec = pg ? pg->cost(obj).value() : 0.0;
+            f["true"] = fx(truec);
+            f["satisfies"] = obj->isSatisfied(s.cost_);
+            f["n"] = pg ? (int)pg->getStateCount() : 0;
+            f["len"] = fx(s.length_);
+            f["reallen"] = fx(pg ? pg->length() : 0.0);
+            sols.push_back(f);
+        }
+        ev["sols"] = sols;
+        tr.emit(ev);
+    }
+}
+
 int main(int argc, char **argv)
 {
     installRunCrashHandlers();
@@ -608,6 +753,32 @@ int main(int argc, char **argv)
         std::cout << "RECORDED " << n << std::endl;
         return 0;
     }
-    fprintf(stderr, "usage: planners list | c01|c03 <jobs> <out> <shard> <nshards> [skip]\n");
+    if (mode == "c04" && argc >= 6)
+    {
+        auto jobs = vt::readNdjson(argv[2]);
+        int shard = atoi(argv[4]), nshards = atoi(argv[5]);
+        long skip = argc > 6 ? atol(argv[6]) : 0;
+        vt::Trace tr(argv[3], skip > 0);
+        startWatchdog(60000, 900000);
+        long n = 0;
+        for (std::size_t i = 0; i < jobs.size(); ++i)
+        {
+            if ((int)(i % nshards) != shard)
+                continue;
+            if (n++ < skip)
+                continue;
+            const json &job = jobs[i];
+            json what{{"planner", job["planner"]}, {"objective", job["objective"]}, {"job", job.value("id", 0)}, {"idx", n - 1}};
+            std::cout << "RUN " << (n - 1) << std::endl;
+            {
+                RunGuard g(what);
+                runCost(reg, job, tr);
+            }
+            tr.flush();
+        }
+        std::cout << "RECORDED " << n << std::endl;
+        return 0;
+    }
+    fprintf(stderr, "usage: planners list | c01|c03|c04 <jobs> <out> <shard> <nshards> [skip]\n");
     return 2;
 }
